@@ -1,7 +1,8 @@
 (** C03 (symbol-map part): under the id side conditions [op_ids_ok] no op of the model panics, every id stored
-    in the interval maps was allocated, every parent of a record is strictly older than the record; hence the
-    read-only API and the handlers over it never panic and the recursion through `parent_list`
-    (`find_field`, `is_subclass_of`) terminates within fuel = number of records. *)
+    in the interval maps and every parent of a record was allocated; hence the read-only API and the handlers
+    over it never panic, and the recursion through `parent_list` (`find_field`, `is_subclass_of`, with the
+    visited set of fix 1b571ae) terminates within depth (number of records + 1) and makes at most
+    (number of records + 1) calls -- for EVERY parent relation, cyclic or not. *)
 From Coq Require Import List Arith NArith Bool Lia.
 From TG.Model Require Import Chars SymbolMap SymbolWf.
 From TG.Proofs Require Import SymbolMapBasics SymbolOps.
@@ -10,7 +11,8 @@ Open Scope N_scope.
 
 Record IdsInv (S : symbol_map) : Prop := {
   ids_pos : forall f lo hi s, In (lo, hi, s) (posf S f) -> valid_id S (fst s) (snd s) = true;
-  ids_parents : forall r e, get_entry S (KRecord, r) = Some e -> forall p, In p (p_parents (e_payload e)) -> p < r }.
+  ids_parents : forall r e, get_entry S (KRecord, r) = Some e ->
+                forall p, In p (p_parents (e_payload e)) -> valid_id S KRecord p = true }.
 
 Lemma ids_empty : IdsInv sm_empty.
 Proof.
@@ -50,6 +52,9 @@ Proof.
   intros S o S' [I1 I2] Hok Hap.
   pose proof (next_id_mono_step _ _ _ Hap) as Hmono.
   destruct (apply_op_spec _ _ _ Hap) as (Har & Hp & _). unfold arenas_after in Har.
+  assert (I2m : forall r e, get_entry S (KRecord, r) = Some e ->
+            forall p, In p (p_parents (e_payload e)) -> valid_id S' KRecord p = true).
+  { intros r e He p Hin. eapply valid_id_mono; [exact Hmono|eapply I2; eassumption]. }
   (* interval maps *)
   assert (Hpos : match op_key S o with
                  | Some (_, s) => valid_id S' (fst s) (snd s) = true
@@ -65,27 +70,27 @@ Proof.
   (* parents: generic facts *)
   assert (Halloc : forall k e, p_parents (e_payload e) = [] ->
             (forall s, get_entry S' s = if sid_eqb s (k, next_id S k) then Some e else get_entry S s) ->
-            forall r e1, get_entry S' (KRecord, r) = Some e1 -> forall p, In p (p_parents (e_payload e1)) -> p < r).
+            forall r e1, get_entry S' (KRecord, r) = Some e1 -> forall p, In p (p_parents (e_payload e1)) -> valid_id S' KRecord p = true).
   { intros k e He Hg r e1 He1 p Hin. rewrite Hg in He1. destruct (sid_eqb (KRecord, r) (k, next_id S k)).
     - inversion He1. subst. rewrite He in Hin. destruct Hin.
-    - eapply I2; eassumption. }
+    - eapply I2m; eassumption. }
   assert (Hupd : forall t g, (forall p, p_parents (g p) = p_parents p) ->
             (forall s', get_entry S' s' = if sid_eqb t s' then option_map (upd_payload g) (get_entry S s') else get_entry S s') ->
-            forall r e1, get_entry S' (KRecord, r) = Some e1 -> forall p, In p (p_parents (e_payload e1)) -> p < r).
+            forall r e1, get_entry S' (KRecord, r) = Some e1 -> forall p, In p (p_parents (e_payload e1)) -> valid_id S' KRecord p = true).
   { intros t g Hgp Hg r e1 He1 p Hin. rewrite Hg in He1. destruct (sid_eqb t (KRecord, r)).
     - destruct (get_entry S (KRecord, r)) as [e|] eqn:He; [|discriminate]. inversion He1. subst e1. cbn in Hin.
-      rewrite Hgp in Hin. eapply I2; eassumption.
-    - eapply I2; eassumption. }
+      rewrite Hgp in Hin. eapply I2m; eassumption.
+    - eapply I2m; eassumption. }
   assert (Hother : forall k id g, k <> KRecord ->
             (forall s', get_entry S' s' = if sid_eqb (k, id) s' then option_map (upd_payload g) (get_entry S s') else get_entry S s') ->
-            forall r e1, get_entry S' (KRecord, r) = Some e1 -> forall p, In p (p_parents (e_payload e1)) -> p < r).
+            forall r e1, get_entry S' (KRecord, r) = Some e1 -> forall p, In p (p_parents (e_payload e1)) -> valid_id S' KRecord p = true).
   { intros k id g Hk Hg r e1 He1 p Hin. rewrite Hg in He1.
     destruct (sid_eqb (k, id) (KRecord, r)) eqn:E.
     - apply sid_eqb_eq in E. inversion E. contradiction.
-    - eapply I2; eassumption. }
+    - eapply I2m; eassumption. }
   assert (Hsame : same_arenas S S' ->
-            forall r e1, get_entry S' (KRecord, r) = Some e1 -> forall p, In p (p_parents (e_payload e1)) -> p < r).
-  { intros Hsa r e1 He1. rewrite (same_arenas_get_entry _ _ _ Hsa) in He1. eapply I2. exact He1. }
+            forall r e1, get_entry S' (KRecord, r) = Some e1 -> forall p, In p (p_parents (e_payload e1)) -> valid_id S' KRecord p = true).
+  { intros Hsa r e1 He1. rewrite (same_arenas_get_entry _ _ _ Hsa) in He1. eapply I2m. exact He1. }
   assert (Hnew : forall k, valid_id S' k (next_id S k) = true -> valid_id S' (fst (k, next_id S k)) (snd (k, next_id S k)) = true)
     by (intros; assumption).
   destruct o; cbn [op_alloc op_update op_key e_def] in Har, Hpos; cbn [op_ids_ok] in Hok.
@@ -103,8 +108,8 @@ Proof.
     + apply Hpos. eapply valid_id_mono; [exact Hmono|exact Hok].
     + intros r e1 He1 p Hin. rewrite Hg in He1. destruct (sid_eqb s (KRecord, r)).
       * destruct (get_entry S (KRecord, r)) as [e|] eqn:He; [|discriminate]. inversion He1. subst e1. cbn in Hin.
-        eapply I2; eassumption.
-      * eapply I2; eassumption.
+        eapply I2m; eassumption.
+      * eapply I2m; eassumption.
   - split; [apply Hpos; exact I|apply Hsame; exact Har].
   - split; [apply Hpos; exact I|apply Hsame; exact Har].
   - split; [apply Hpos; exact I|apply Hsame; exact Har].
@@ -117,15 +122,15 @@ Proof.
     split; [apply Hpos; exact I|eapply Hupd; [|exact Hg]; apply p_parents_rec_field].
   - (* record.add_parent *)
     destruct (cur_is S KRecord) as [r0|] eqn:Ec; [|discriminate]. rewrite (cur_is_cur_target _ _ _ Ec) in Har.
-    cbn [option_map] in Har. destruct Har as (_ & Hg & _). apply N.ltb_lt in Hok.
+    cbn [option_map] in Har. destruct Har as (_ & Hg & _).
     split; [apply Hpos; exact I|].
     intros r e1 He1 p Hin. rewrite Hg in He1. destruct (sid_eqb (KRecord, r0) (KRecord, r)) eqn:E.
     + apply sid_eqb_eq in E. inversion E. subst r0.
       destruct (get_entry S (KRecord, r)) as [e|] eqn:He; [|discriminate]. inversion He1. subst e1. cbn in Hin.
-      destruct (e_payload e) eqn:Ep; cbn in Hin; try (eapply I2; [exact He|rewrite Ep; exact Hin]).
-      apply in_app_or in Hin. destruct Hin as [Hin|[Hin|[]]]; [|subst; exact Hok].
-      eapply I2; [exact He|rewrite Ep; exact Hin].
-    + eapply I2; eassumption.
+      destruct (e_payload e) eqn:Ep; cbn in Hin; try (eapply I2m; [exact He|rewrite Ep; exact Hin]).
+      apply in_app_or in Hin. destruct Hin as [Hin|[Hin|[]]]; [|subst; eapply valid_id_mono; [exact Hmono|exact Hok]].
+      eapply I2m; [exact He|rewrite Ep; exact Hin].
+    + eapply I2m; eassumption.
   - destruct (cur_is S KDefset) as [r0|] eqn:Ec; [|discriminate]. rewrite (cur_is_cur_target _ _ _ Ec) in Har.
     cbn [option_map] in Har. destruct Har as (_ & Hg & _).
     split; [apply Hpos; exact I|eapply Hother; [|exact Hg]; discriminate].
@@ -189,56 +194,172 @@ Proof.
   exists (set_pos sm_empty [(0, [(6, 7, (KRecord, 0))])]), (mkFR 0 3 3). reflexivity.
 Qed.
 
-(** ---- recursion through parent_list *)
+(** ---- recursion through parent_list (visited set of fix 1b571ae) *)
 Lemma record_valid_lt : forall S r e, get_entry S (KRecord, r) = Some e -> r < next_id S KRecord.
 Proof.
   intros S r e H. assert (Hv : valid_id S (fst (KRecord, r)) (snd (KRecord, r)) = true) by (apply get_entry_valid; eauto).
   unfold valid_id in Hv. apply N.ltb_lt in Hv. exact Hv.
 Qed.
 
-Lemma parents_valid : forall S r e p, IdsInv S -> get_entry S (KRecord, r) = Some e -> In p (p_parents (e_payload e)) ->
-  exists e', get_entry S (KRecord, p) = Some e'.
+Lemma valid_record_entry : forall S p, valid_id S KRecord p = true -> exists e, get_entry S (KRecord, p) = Some e.
+Proof. intros S p H. apply (get_entry_valid S (KRecord, p)). exact H. Qed.
+
+Lemma vis_mem_In : forall p vis, vis_mem p vis = true <-> In p vis.
 Proof.
-  intros S r e p HI He Hin. pose proof (ids_parents _ HI _ _ He _ Hin) as Hlt.
-  pose proof (record_valid_lt _ _ _ He) as Hr.
-  apply (get_entry_valid S (KRecord, p)). unfold valid_id. cbn. apply N.ltb_lt. lia.
+  intros p vis. unfold vis_mem. rewrite existsb_exists. split.
+  - intros [x [Hin He]]. apply N.eqb_eq in He. subst. exact Hin.
+  - intros H. exists p. split; [exact H|apply N.eqb_refl].
 Qed.
 
-Theorem find_field_ok : forall S n, IdsInv S ->
-  forall fuel r e, get_entry S (KRecord, r) = Some e -> (N.to_nat r < fuel)%nat ->
-  exists o, find_field fuel S r n = SOk o.
+(** a duplicate-free list of allocated record ids is no longer than the arena *)
+Definition vis_ok (S : symbol_map) (vis : list N) : Prop := NoDup vis /\ forall p, In p vis -> valid_id S KRecord p = true.
+
+Lemma vis_ok_length : forall S vis, vis_ok S vis -> (length vis <= length (sm_records S))%nat.
 Proof.
-  intros S n HI. induction fuel as [|fuel IH]; intros r e He Hf; [lia|].
-  cbn [find_field]. unfold record, symbol. rewrite He. cbn [sbind].
-  destruct (amap_get (p_fields (e_payload e)) n); [eauto|].
-  assert (Hps : forall p, In p (p_parents (e_payload e)) -> exists o, find_field fuel S p n = SOk o).
-  { intros p Hin. destruct (parents_valid _ _ _ _ HI He Hin) as [e' He'].
-    pose proof (ids_parents _ HI _ _ He _ Hin) as Hlt. eapply IH; [exact He'|lia]. }
-  induction (p_parents (e_payload e)) as [|p ps IHps]; [eauto|].
-  destruct (Hps p (or_introl eq_refl)) as [o Ho]. rewrite Ho. destruct o; [eauto|].
-  apply IHps. intros q Hq. apply Hps. right. exact Hq.
+  intros S vis [Hnd Hv].
+  assert (Hincl : incl vis (map N.of_nat (seq 0 (length (sm_records S))))).
+  { intros p Hp. specialize (Hv p Hp). unfold valid_id, next_id, len_N in Hv. cbn [get_arena] in Hv. apply N.ltb_lt in Hv.
+    apply in_map_iff. exists (N.to_nat p). split; [apply Nnat.N2Nat.id|]. apply in_seq. lia. }
+  pose proof (NoDup_incl_length Hnd Hincl) as H. rewrite map_length, seq_length in H. exact H.
 Qed.
 
-Theorem is_subclass_of_ok : forall S other, IdsInv S ->
-  forall fuel r e, get_entry S (KRecord, r) = Some e -> (N.to_nat r < fuel)%nat ->
-  exists b, is_subclass_of fuel S r other = SOk b.
+Lemma vis_ok_cons : forall S vis p, vis_ok S vis -> vis_mem p vis = false -> valid_id S KRecord p = true -> vis_ok S (p :: vis).
 Proof.
-  intros S other HI. induction fuel as [|fuel IH]; intros r e He Hf; [lia|].
-  cbn [is_subclass_of]. unfold record, symbol. rewrite He. cbn [sbind].
-  destruct (existsb (N.eqb other) (p_parents (e_payload e))); [eauto|].
-  assert (Hps : forall p, In p (p_parents (e_payload e)) -> exists b, is_subclass_of fuel S p other = SOk b).
-  { intros p Hin. destruct (parents_valid _ _ _ _ HI He Hin) as [e' He'].
-    pose proof (ids_parents _ HI _ _ He _ Hin) as Hlt. eapply IH; [exact He'|lia]. }
-  induction (p_parents (e_payload e)) as [|p ps IHps]; [eauto|].
-  destruct (Hps p (or_introl eq_refl)) as [b Hb]. rewrite Hb. destruct b; [eauto|].
-  apply IHps. intros q Hq. apply Hps. right. exact Hq.
+  intros S vis p [Hnd Hv] Hm Hp. split.
+  - constructor; [|exact Hnd]. intros C. apply vis_mem_In in C. congruence.
+  - intros q [Hq|Hq]; [subst; exact Hp|apply Hv; exact Hq].
 Qed.
 
-(** fuel = number of records is enough for every record *)
-Lemma fuel_records : forall S r e, get_entry S (KRecord, r) = Some e -> (N.to_nat r < length (sm_records S))%nat.
+Section Recursion.
+Variable S : symbol_map.
+Hypothesis HI : IdsInv S.
+Let nrec := length (sm_records S).
+
+Theorem find_field_in_ok : forall n fuel rid vis e,
+  get_entry S (KRecord, rid) = Some e -> vis_ok S vis -> (nrec - length vis < fuel)%nat ->
+  exists o vis', find_field_in fuel S rid n vis = SOk (o, vis') /\ vis_ok S vis' /\ (length vis <= length vis')%nat.
 Proof.
-  intros S r e H. apply record_valid_lt in H. unfold next_id, len_N in H. cbn [get_arena] in H. lia.
+  intros n. induction fuel as [|fuel IH]; intros rid vis e He Hvis Hf; [lia|].
+  cbn [find_field_in]. unfold record, symbol. rewrite He. cbn [sbind].
+  destruct (amap_get (p_fields (e_payload e)) n); [exists (Some n0), vis; auto|].
+  pose proof (ids_parents _ HI _ _ He) as Hps.
+  revert Hps. generalize (p_parents (e_payload e)) as ps. intros ps.
+  revert vis Hvis Hf. induction ps as [|p ps IHps]; intros vis Hvis Hf Hps.
+  - exists None, vis. auto.
+  - destruct (vis_mem p vis) eqn:Em.
+    + apply IHps; [exact Hvis|exact Hf|]. intros q Hq. apply Hps. right. exact Hq.
+    + assert (Hp : valid_id S KRecord p = true) by (apply Hps; left; reflexivity).
+      pose proof (vis_ok_cons _ _ _ Hvis Em Hp) as Hvis1.
+      pose proof (vis_ok_length _ _ Hvis1) as Hlen1. cbn [length] in Hlen1. fold nrec in Hlen1.
+      destruct (valid_record_entry _ _ Hp) as [ep Hep].
+      destruct (IH p (p :: vis) ep Hep Hvis1) as (o & vis' & Hr & Hvis' & Hle); [cbn [length]; lia|].
+      rewrite Hr. cbn [length] in Hle. destruct o as [f|].
+      * exists (Some f), vis'. split; [reflexivity|]. split; [exact Hvis'|lia].
+      * destruct (IHps vis' Hvis') as (o2 & vis2 & Hr2 & Hvis2 & Hle2); [lia| |].
+        -- intros q Hq. apply Hps. right. exact Hq.
+        -- exists o2, vis2. split; [exact Hr2|]. split; [exact Hvis2|lia].
 Qed.
+
+Theorem is_subclass_of_in_ok : forall other fuel rid vis e,
+  get_entry S (KRecord, rid) = Some e -> vis_ok S vis -> (nrec - length vis < fuel)%nat ->
+  exists b vis', is_subclass_of_in fuel S rid other vis = SOk (b, vis') /\ vis_ok S vis' /\ (length vis <= length vis')%nat.
+Proof.
+  intros other. induction fuel as [|fuel IH]; intros rid vis e He Hvis Hf; [lia|].
+  cbn [is_subclass_of_in]. unfold record, symbol. rewrite He. cbn [sbind]. cbn zeta.
+  destruct (existsb (N.eqb other) (p_parents (e_payload e))); [exists true, vis; auto|].
+  pose proof (ids_parents _ HI _ _ He) as Hps.
+  revert Hps. generalize (p_parents (e_payload e)) as ps. intros ps.
+  revert vis Hvis Hf. induction ps as [|p ps IHps]; intros vis Hvis Hf Hps.
+  - exists false, vis. auto.
+  - destruct (vis_mem p vis) eqn:Em.
+    + apply IHps; [exact Hvis|exact Hf|]. intros q Hq. apply Hps. right. exact Hq.
+    + assert (Hp : valid_id S KRecord p = true) by (apply Hps; left; reflexivity).
+      pose proof (vis_ok_cons _ _ _ Hvis Em Hp) as Hvis1.
+      pose proof (vis_ok_length _ _ Hvis1) as Hlen1. cbn [length] in Hlen1. fold nrec in Hlen1.
+      destruct (valid_record_entry _ _ Hp) as [ep Hep].
+      destruct (IH p (p :: vis) ep Hep Hvis1) as (b & vis' & Hr & Hvis' & Hle); [cbn [length]; lia|].
+      rewrite Hr. cbn [length] in Hle. destruct b.
+      * exists true, vis'. split; [reflexivity|]. split; [exact Hvis'|lia].
+      * destruct (IHps vis' Hvis') as (b2 & vis2 & Hr2 & Hvis2 & Hle2); [lia| |].
+        -- intros q Hq. apply Hps. right. exact Hq.
+        -- exists b2, vis2. split; [exact Hr2|]. split; [exact Hvis2|lia].
+Qed.
+
+Lemma vis_ok_nil : vis_ok S [].
+Proof. split; [constructor|intros p []]. Qed.
+
+Theorem find_field_ok : forall rid n e, get_entry S (KRecord, rid) = Some e ->
+  exists o, find_field (Datatypes.S nrec) S rid n = SOk o.
+Proof.
+  intros rid n e He. unfold find_field.
+  destruct (find_field_in_ok n (Datatypes.S nrec) rid [] e He vis_ok_nil) as (o & vis' & Hr & _); [cbn; lia|].
+  rewrite Hr. cbn. eauto.
+Qed.
+
+Theorem is_subclass_of_ok : forall rid other e, get_entry S (KRecord, rid) = Some e ->
+  exists b, is_subclass_of (Datatypes.S nrec) S rid other = SOk b.
+Proof.
+  intros rid other e He. unfold is_subclass_of.
+  destruct (is_subclass_of_in_ok other (Datatypes.S nrec) rid [] e He vis_ok_nil) as (b & vis' & Hr & _); [cbn; lia|].
+  rewrite Hr. cbn. eauto.
+Qed.
+
+(** WORK bound: the number of invocations of the recursive function is 1 + the number of ids inserted into the
+    visited set, hence at most (number of records + 1) -- what the defect D35 (exponential on diamonds) violated *)
+Theorem find_field_calls_spec : forall n fuel rid vis o vis',
+  find_field_in fuel S rid n vis = SOk (o, vis') ->
+  find_field_calls fuel S rid n vis = (Datatypes.S (length vis' - length vis), vis') /\ (length vis <= length vis')%nat.
+Proof.
+  intros n. induction fuel as [|fuel IH]; intros rid vis o vis' H; [discriminate|].
+  cbn [find_field_in] in H. cbn [find_field_calls]. unfold record, symbol in H.
+  destruct (get_entry S (KRecord, rid)) as [e|]; [|discriminate]. cbn [sbind] in H.
+  destruct (amap_get (p_fields (e_payload e)) n).
+  - inversion H. subst. rewrite Nat.sub_diag. auto.
+  - revert H. generalize (p_parents (e_payload e)) as ps. intros ps.
+    assert (Hgen : forall ps cur acc o vis',
+      (fix go (ps : list N) (vis : list N) : sres (option N * list N) :=
+         match ps with
+         | [] => SOk (None, vis)
+         | p :: ps' =>
+             if vis_mem p vis then go ps' vis
+             else match find_field_in fuel S p n (p :: vis) with
+                  | SOk (Some f, vis') => SOk (Some f, vis')
+                  | SOk (None, vis') => go ps' vis'
+                  | SErr e => SErr e
+                  end
+         end) ps cur = SOk (o, vis') ->
+      (fix go (ps : list N) (vis : list N) (acc : nat) : nat * list N :=
+         match ps with
+         | [] => (acc, vis)
+         | p :: ps' =>
+             if vis_mem p vis then go ps' vis acc
+             else let '(c, vis') := find_field_calls fuel S p n (p :: vis) in
+                  match find_field_in fuel S p n (p :: vis) with
+                  | SOk (None, _) => go ps' vis' (acc + c)%nat
+                  | _ => ((acc + c)%nat, vis')
+                  end
+         end) ps cur acc = ((acc + (length vis' - length cur))%nat, vis') /\ (length cur <= length vis')%nat).
+    { induction ps0 as [|p ps0 IHps]; intros cur acc o0 v0 Hgo.
+      - inversion Hgo. subst. rewrite Nat.sub_diag, Nat.add_0_r. auto.
+      - destruct (vis_mem p cur); [exact (IHps _ _ _ _ Hgo)|].
+        destruct (find_field_in fuel S p n (p :: cur)) as [[o1 v1]|] eqn:Er; [|discriminate].
+        destruct (IH _ _ _ _ Er) as [Hc Hle]. rewrite Hc. cbn [length] in Hc, Hle.
+        destruct o1 as [f|]; cbv beta iota zeta.
+        + inversion Hgo. subst. split; [|lia]. f_equal. cbn [length]. lia.
+        + destruct (IHps v1 (acc + Datatypes.S (length v1 - length (p :: cur)))%nat _ _ Hgo) as [Hc2 Hle2].
+          rewrite Hc2. cbn [length] in *. split; [|lia]. f_equal. lia. }
+    intros H. destruct (Hgen ps vis 1%nat o vis' H) as [Hc Hle]. rewrite Hc. auto.
+Qed.
+
+Theorem find_field_work_bound : forall rid n e, get_entry S (KRecord, rid) = Some e ->
+  (fst (find_field_calls (Datatypes.S nrec) S rid n []) <= Datatypes.S nrec)%nat.
+Proof.
+  intros rid n e He.
+  destruct (find_field_in_ok n (Datatypes.S nrec) rid [] e He vis_ok_nil) as (o & vis' & Hr & Hvis' & _); [cbn; lia|].
+  destruct (find_field_calls_spec _ _ _ _ _ _ Hr) as [Hc _]. rewrite Hc. cbn [fst length].
+  pose proof (vis_ok_length _ _ Hvis'). fold nrec in H. lia.
+Qed.
+End Recursion.
 
 (** ---- the statement of props/C03.v *)
 Theorem c03_symbol_map_total : forall ops,
@@ -248,38 +369,64 @@ Theorem c03_symbol_map_total : forall ops,
     (forall f p, exists o, goto_definition S f p = SOk o) /\
     (forall f p, exists o, references S f p = SOk o) /\
     (forall loc, exists o, iter_symbols_in_range S loc = SOk o) /\
-    (forall r n, r < next_id S KRecord -> exists o, find_field (length (sm_records S)) S r n = SOk o) /\
-    (forall r other, r < next_id S KRecord -> exists b, is_subclass_of (length (sm_records S)) S r other = SOk b).
+    (forall r n, r < next_id S KRecord -> exists o, find_field (Datatypes.S (length (sm_records S))) S r n = SOk o) /\
+    (forall r other, r < next_id S KRecord -> exists b, is_subclass_of (Datatypes.S (length (sm_records S))) S r other = SOk b) /\
+    (forall r n, r < next_id S KRecord ->
+       (fst (find_field_calls (Datatypes.S (length (sm_records S))) S r n []) <= Datatypes.S (length (sm_records S)))%nat).
 Proof.
   intros ops H. destruct (ids_run ops H) as (S & Hr & HI). exists S. split; [exact Hr|].
   split; [intros; apply find_symbol_at_ok; exact HI|].
   split; [intros; apply goto_definition_ok; exact HI|].
   split; [intros; apply references_ok; exact HI|].
   split; [intros; apply iter_symbols_in_range_ok|].
-  split.
-  - intros r n Hr'. assert (Hv : valid_id S (fst (KRecord, r)) (snd (KRecord, r)) = true) by (unfold valid_id; cbn; apply N.ltb_lt; exact Hr').
-    apply get_entry_valid in Hv. destruct Hv as [e He]. eapply find_field_ok; [exact HI|exact He|eapply fuel_records; exact He].
-  - intros r other Hr'. assert (Hv : valid_id S (fst (KRecord, r)) (snd (KRecord, r)) = true) by (unfold valid_id; cbn; apply N.ltb_lt; exact Hr').
-    apply get_entry_valid in Hv. destruct Hv as [e He]. eapply is_subclass_of_ok; [exact HI|exact He|eapply fuel_records; exact He].
+  assert (Hent : forall r, r < next_id S KRecord -> exists e, get_entry S (KRecord, r) = Some e).
+  { intros r Hr'. apply valid_record_entry. unfold valid_id. apply N.ltb_lt. exact Hr'. }
+  split; [|split].
+  - intros r n Hr'. destruct (Hent r Hr') as [e He]. eapply find_field_ok; eassumption.
+  - intros r other Hr'. destruct (Hent r Hr') as [e He]. eapply is_subclass_of_ok; eassumption.
+  - intros r n Hr'. destruct (Hent r Hr') as [e He]. eapply find_field_work_bound; eassumption.
 Qed.
 
-(** ---- the guard of fix fb9cd66 is needed: the log of `class A : A { int x = y; }` without it (the class is
-    its own parent) makes the field lookup diverge: no fuel is enough (defect D3: stack overflow) *)
+(** ---- before fix 1b571ae: the log of `class A : A { int x = y; }` without the guard of fb9cd66 (the class is its
+    own parent) made the field lookup diverge: no fuel is enough (defect D3: stack overflow).  With the visited set
+    the same state is harmless. *)
 Definition d3_ops : list op :=
   [ OpAddRecord [65] RKClass (mkFR 0 6 7) true 0;
     OpAddReference (KRecord, 0) (mkFR 0 10 11); OpRecordMut 0; OpRecordMut 0; OpRecAddParent 0 ].
 
-Theorem c03_self_parent_diverges :
-  ops_ids_wf d3_ops = false /\
-  exists S, run_ops d3_ops = SOk S /\ forall fuel, find_field fuel S 0 [121] = SErr EOutOfFuel.
+Theorem c03_self_parent_diverges_v0 :
+  exists S, run_ops d3_ops = SOk S /\ (forall fuel, find_field_v0 fuel S 0 [121] = SErr EOutOfFuel) /\
+            find_field 2 S 0 [121] = SOk None /\ is_subclass_of 2 S 0 0 = SOk true.
 Proof.
-  split; [vm_compute; reflexivity|]. eexists. split; [vm_compute; reflexivity|].
+  eexists. split; [vm_compute; reflexivity|]. split; [|vm_compute; split; reflexivity].
   induction fuel as [|fuel IH]; [reflexivity|].
-  cbn [find_field]. unfold record, symbol, get_entry, nth_N. cbn. rewrite IH. reflexivity.
+  cbn [find_field_v0]. unfold record, symbol, get_entry, nth_N. cbn. rewrite IH. reflexivity.
 Qed.
 
+(** ---- defect D35 (before 1b571ae): a chain  class C0 { int a; }  class Ci : Ci-1, Ci-1;  (i = 1..10) and the
+    lookup of a name that is nowhere: the old function is invoked 2^11 - 1 times, the repaired one 11 times *)
+Fixpoint chain_ops (i : nat) (acc : list op) : list op :=
+  match i with
+  | O => acc
+  | Datatypes.S j =>
+      chain_ops j ([ OpAddRecord [67] RKClass (mkFR 0 (N.of_nat i * 100 + 6) (N.of_nat i * 100 + 8)) true (N.of_nat i);
+                     OpRecordMut (N.of_nat i); OpRecAddParent (N.of_nat j);
+                     OpRecordMut (N.of_nat i); OpRecAddParent (N.of_nat j) ] ++ acc)
+  end.
+Definition d35_ops : list op :=
+  [ OpAddRecord [67] RKClass (mkFR 0 6 8) true 0; OpAddRecordField [97] [] (mkFR 0 15 16) 0 0; OpRecordMut 0; OpRecAddField [97] 0 ]
+  ++ chain_ops 10 [].
+
+Theorem c03_diamond_exponential_v0 :
+  ops_ids_wf d35_ops = true /\
+  exists S, run_ops d35_ops = SOk S /\
+    find_field_calls_v0 12 S 10 [113] = 2047%nat /\ find_field_v0 12 S 10 [113] = SOk None /\
+    fst (find_field_calls 12 S 10 [113] []) = 11%nat /\ find_field 12 S 10 [113] = SOk None /\
+    find_field 12 S 10 [97] = SOk (Some 0) /\ find_field_v0 12 S 10 [97] = SOk (Some 0).
+Proof. split; [vm_compute; reflexivity|]. eexists. split; [vm_compute; reflexivity|]. vm_compute. repeat split; reflexivity. Qed.
+
 (** non-vacuity: the log of  class A; class B : A; class A : B;  (mutual recursion is impossible: the second
-    `class A` is a new record, older records are never given younger parents) *)
+    `class A` is a new record) *)
 Definition c03_ex_ops : list op :=
   [ OpAddRecord [65] RKClass (mkFR 0 6 7) true 0;
     OpAddRecord [66] RKClass (mkFR 0 15 16) true 1;
@@ -288,5 +435,5 @@ Definition c03_ex_ops : list op :=
     OpAddReference (KRecord, 1) (mkFR 0 32 33); OpRecordMut 1; OpRecordMut 2; OpRecAddParent 1 ].
 Example c03_ex : ops_ids_wf c03_ex_ops = true /\
   exists S, run_ops c03_ex_ops = SOk S /\ record_parents S 2 = [1] /\ record_parents S 1 = [0] /\ record_parents S 0 = [] /\
-            is_subclass_of 3 S 2 0 = SOk true /\ is_subclass_of 3 S 0 2 = SOk false.
+            is_subclass_of 4 S 2 0 = SOk true /\ is_subclass_of 4 S 0 2 = SOk false.
 Proof. split; [vm_compute; reflexivity|]. eexists. split; [vm_compute; reflexivity|]. vm_compute. repeat split; reflexivity. Qed.
